@@ -71,11 +71,13 @@ type c14Model struct {
 }
 
 type c14Interp struct {
-	p    *prolog.Interpreter
-	out  *kit.SimWriter
-	alt  *kit.SimWriter
-	altS *engine.Stream
-	m    *c14Model
+	unknowns     int // calls of the Unknown callback (unknown = warning)
+	wantUnknowns int
+	p            *prolog.Interpreter
+	out          *kit.SimWriter
+	alt          *kit.SimWriter
+	altS         *engine.Stream
+	m            *c14Model
 }
 
 var c14Greek = []string{"α", "β", "γ"}
@@ -96,8 +98,8 @@ func (c14) Exec(r *kit.Run) {
 			created++
 		} else {
 			op.I = g.Choose(created)
-			kinds := []string{"assert", "retract", "op", "flag", "conv", "consult", "write-user", "write-cur", "out-alt", "out-user", "intern", "cur-open", "cur-step", "cur-close", "read-input", "cur-open-flags", "bad-load"}
-			op.Op = kinds[g.Weighted(5, 2, 5, 4, 3, 2, 4, 4, 1, 1, 2, 2, 6, 1, 2, 2, 2)]
+			kinds := []string{"assert", "retract", "op", "flag", "conv", "consult", "write-user", "write-cur", "out-alt", "out-user", "intern", "cur-open", "cur-step", "cur-close", "read-input", "cur-open-flags", "bad-load", "unknown-warn"}
+			op.Op = kinds[g.Weighted(5, 2, 5, 4, 3, 2, 4, 4, 1, 1, 2, 2, 6, 1, 2, 2, 2, 2)]
 			switch op.Op {
 			case "assert":
 				op.Arg = fmt.Sprintf("t%d", n)
@@ -202,6 +204,11 @@ func (c14) Exec(r *kit.Run) {
 			} else {
 				it.p = prolog.New(strings.NewReader("abc"), it.out)
 			}
+			it.p.Unknown = func(name engine.Atom, _ []engine.Term, _ *engine.Env) {
+				if name.String() == "zz_undefined_c14" {
+					it.unknowns++
+				}
+			}
 			fsys := kit.NewSimFS(r, r.Tape.Lane("dev:fs"))
 			fsys.Files["lib.pl"] = []byte(fmt.Sprintf("who(i%d).\nshared(common).\n", op.I))
 			it.p.FS = fsys
@@ -283,6 +290,17 @@ func (c14) Exec(r *kit.Run) {
 				goal = "consult(lib)"
 				m.who = fmt.Sprintf("i%d", op.I)
 				mark("who", op.I)
+			case "unknown-warn":
+				// every interpreter reports the unknown procedures IT meets, whatever the others have met already
+				goal = "set_prolog_flag(unknown, warning), \\+ zz_undefined_c14(1, 2)"
+				m.flags["unknown"] = "warning"
+				mark("flags", op.I)
+				for _, c := range cursors {
+					if c.i == op.I && c.started {
+						c.stale = true
+					}
+				}
+				it.wantUnknowns++
 			case "bad-load":
 				// a text that is abandoned with clauses read but not installed: it defines nothing here (C20) and, above all,
 				// nothing anywhere else, now or at anybody's next load
@@ -394,6 +412,10 @@ func (c14) Exec(r *kit.Run) {
 			}
 			_, err := ask(it, goal)
 			r.Logf("%d interpreter %d: %s -> %s", n, op.I, goal, kit.CanonErr(err))
+			if it.unknowns != it.wantUnknowns {
+				r.Fail("leak", "unknown-procedure-callback", "interpreter %d (of %d): its Unknown callback has run %d times after %s; it met an unknown procedure under unknown = warning %d times", op.I, len(its), it.unknowns, goal, it.wantUnknowns)
+				return
+			}
 			if (err != nil) != (mustErr == "yes") && mustErr != "either" {
 				r.Fail("wrong-answer", "operation-result:"+op.Op, "interpreter %d: %s returned %s (expected an error: %s)", op.I, goal, kit.CanonErr(err), mustErr)
 				return
